@@ -161,6 +161,11 @@ func genCase(rt *rapid.T) Case {
 			"(defun zf7 (x) (zf8) (vt:mark 9002 x) (* x 2))")
 		c.Main = c.Main[:len(c.Main)-1] + " (zf7 3) (zf7 4))"
 	}
+	if rapid.IntRange(0, 3).Draw(rt, "defvar-in-main") == 0 {
+		// a defvar inside the code that is evaluated k times, of a variable the same code sets to nil every other time:
+		// only the first evaluation of the defvar gives the variable a value
+		c.Main = c.Main[:len(c.Main)-1] + " (progn (defvar *zg7* t) (setq *zg7* (not *zg7*)) *zg7*))"
+	}
 	c.K = rapid.IntRange(1, 5).Draw(rt, "k")
 	if rapid.IntRange(0, 2).Draw(rt, "redef") == 0 {
 		j := rapid.IntRange(0, nfun-1).Draw(rt, "redefwhich")
